@@ -160,6 +160,31 @@ def run(ctx, res):
             res.fail(key, 'write, edit, write: the second file does not hold the edited %s (stale data from the first write?)' % bad, inp)
         elif write_p8(g) != f2:
             res.fail(key, 'writing the same cart a third time gives a different file', inp)
+    # the same file name holding, one after the other, different carts of exactly the same size (only data digits differ): what is read
+    # is what the file holds now
+    import os
+    from pico8.game import file as gfile_
+    pth = os.path.join(ctx.tmp, 'same_name.p8')
+    for h in range(ctx.budget(6, 60)):
+        regs = {nm: U.rand_bytes(rng, sz, 'uniform') for nm, sz in U.REGION_SIZES}
+        g = U.make_game(regions=regs, code=b'x=%03d\n' % (h % 7), version=8)
+        gfile_.to_file(g, pth)
+        res.evaluations += 1
+        res.count('same-name-rewrites')
+        res.nontrivial.add(('same-name', h))
+        try:
+            back = gfile_.from_file(pth)
+            got = U.regions_of(back)
+            code_back = b''.join(back.lua.to_lines())
+        except Exception as e:
+            res.fail('C03:same-name:%d' % h, 'a cart written over another of the same size cannot be read (%r)' % (e,), {'step': h})
+            continue
+        want = dict(regs)
+        want['music'] = bytes(b & 127 if i % 4 == 3 else b for i, b in enumerate(regs['music']))
+        got['music'] = bytes(b & 127 if i % 4 == 3 else b for i, b in enumerate(got['music']))
+        if got != want or code_back != b'x=%03d\n' % (h % 7):
+            res.fail('C03:same-name:%d' % h, 'reading %s after it was rewritten with another cart of the same size returns %s' % (
+                os.path.basename(pth), 'the earlier cart' if h else 'something else than was written'), {'step': h, 'file_size': os.path.getsize(pth)})
     # reader on malformed / unusual files: model vs implementation
     good = write_p8(U.make_game(rng=rng, code=b'x=1\n', version=8))
     variants = [
